@@ -545,8 +545,192 @@ pub fn run_api(which: &str, scratch: &Path) -> String {
             rm_rf(&scratch.join("g.ufo"));
             outcome(r)
         }
+        w if w.starts_with("wopt-") => run_wopt(w, scratch),
+        w if w.starts_with("olib-") => run_olib(w, scratch),
         _ => "unknown".into(),
     }
+}
+
+fn small_lib(tag: &str) -> norad::Plist {
+    let mut inner = plist::Dictionary::new();
+    inner.insert("n".into(), plist::Value::Integer(1.into()));
+    inner.insert("s".into(), plist::Value::String(format!("two\nlines {}", tag)));
+    let mut l = norad::Plist::new();
+    l.insert("com.example.k".into(), plist::Value::String(tag.to_string()));
+    l.insert("com.example.d".into(), plist::Value::Dictionary(inner));
+    l.insert("com.example.a".into(), plist::Value::Array(vec![plist::Value::Boolean(true), plist::Value::Real(0.5)]));
+    l
+}
+
+/// a glyph that exercises every writer path that indents by hand: glyph lib, object libs on every kind of object
+fn libby_glyph() -> Glyph {
+    let id = |s: &str| Some(norad::Identifier::new(s).unwrap());
+    let mut g = Glyph::new("a");
+    g.lib = small_lib("glyph");
+    let mut a = norad::Anchor::new(1.0, 2.0, None, None, id("a1"));
+    a.replace_lib(small_lib("anchor"));
+    g.anchors.push(a);
+    let mut gl = norad::Guideline::new(norad::Line::Vertical(3.0), None, None, id("g1"));
+    gl.replace_lib(small_lib("guide"));
+    g.guidelines.push(gl);
+    let mut p = norad::ContourPoint::new(0.0, 0.0, norad::PointType::Line, false, None, id("p1"));
+    p.replace_lib(small_lib("point"));
+    let mut c = norad::Contour::new(vec![p, norad::ContourPoint::new(1.0, 1.0, norad::PointType::Line, false, None, None)], id("c1"));
+    c.replace_lib(small_lib("contour"));
+    g.contours.push(c);
+    let mut m = norad::Component::new(norad::Name::new("b").unwrap(), Default::default(), id("m1"));
+    m.replace_lib(small_lib("component"));
+    g.components.push(m);
+    g
+}
+
+/// `wopt-<s|t>-<count>-<d|s>-<glyph|font>`: every option of `WriteOptions` at typical and untypical values (the indent
+/// width is a caller-supplied usize with no documented limit) against a glyph whose libs are written by the hand-rolled
+/// indenter, through `Glyph::encode_xml_with_options` and `Font::save_with_options`
+fn run_wopt(which: &str, scratch: &Path) -> String {
+    let t: Vec<&str> = which.split('-').collect();
+    if t.len() != 5 {
+        return "unknown".into();
+    }
+    let ch = if t[1] == "s" { norad::WriteOptions::SPACE } else { norad::WriteOptions::TAB };
+    let count: usize = t[2].parse().unwrap_or(1);
+    let quote = if t[3] == "s" { norad::QuoteChar::Single } else { norad::QuoteChar::Double };
+    let target = t[4].to_string();
+    let dir = scratch.join("wopt.ufo");
+    let r = guarded(|| {
+        let opts = norad::WriteOptions::default().indent(ch, count).quote_char(quote);
+        let g = libby_glyph();
+        if target == "glyph" {
+            let bytes = g.encode_xml_with_options(&opts).map_err(|_| ())?;
+            // what was written must be readable again
+            Glyph::parse_raw(&bytes).map(|_| ()).map_err(|_| ())
+        } else {
+            let mut f = Font::new();
+            f.lib = small_lib("font");
+            f.layers.default_layer_mut().insert_glyph(g);
+            f.layers.default_layer_mut().insert_glyph(Glyph::new("b"));
+            f.save_with_options(&dir, &opts).map_err(|_| ())?;
+            Font::load(&dir).map(|_| ()).map_err(|_| ())
+        }
+    });
+    rm_rf(&dir);
+    outcome(r)
+}
+
+pub const WOPT_COUNTS: &[usize] = &[0, 1, 2, 3, 4, 7, 8, 15, 16, 17, 31, 32, 33, 63, 64, 65, 100, 255, 256, 257, 1000, 4096];
+
+/// `olib-<a|g|c|p|m>-<0|1>-<ops>`: histories of the object-lib API on one object (anchor, guideline, contour, point,
+/// component; created with or without an identifier), then encode, parse, encode. ops: e replace_lib(empty),
+/// n replace_lib(non-empty), i lib_mut().insert, x lib_mut() remove every key, t take_lib, r replace_identifier
+fn run_olib(which: &str, scratch: &Path) -> String {
+    let t: Vec<&str> = which.split('-').collect();
+    if t.len() != 4 {
+        return "unknown".into();
+    }
+    let kind = t[1].to_string();
+    let with_id = t[2] == "1";
+    let ops = t[3].to_string();
+    let dir = scratch.join("olib.ufo");
+    let to_font = ops.len() % 2 == 1 && ops.ends_with('i');
+    let r = guarded(|| {
+        macro_rules! drive {
+            ($o:expr) => {{
+                let mut k = 0;
+                for op in ops.chars() {
+                    k += 1;
+                    match op {
+                        'e' => {
+                            $o.replace_lib(norad::Plist::new());
+                        }
+                        'n' => {
+                            $o.replace_lib(small_lib("n"));
+                        }
+                        'i' => {
+                            if let Some(l) = $o.lib_mut() {
+                                l.insert(format!("k{}", k), plist::Value::Integer(7.into()));
+                            }
+                        }
+                        'x' => {
+                            if let Some(l) = $o.lib_mut() {
+                                let keys: Vec<String> = l.keys().cloned().collect();
+                                for key in keys {
+                                    l.remove(&key);
+                                }
+                            }
+                        }
+                        't' => {
+                            $o.take_lib();
+                        }
+                        'r' => {
+                            $o.replace_identifier(norad::Identifier::new(&format!("new{}", k)).unwrap());
+                        }
+                        _ => {}
+                    }
+                }
+            }};
+        }
+        let id = if with_id { Some(norad::Identifier::new("id0").unwrap()) } else { None };
+        let mut g = Glyph::new("a");
+        match kind.as_str() {
+            "a" => {
+                let mut o = norad::Anchor::new(1.0, 2.0, None, None, id);
+                drive!(o);
+                g.anchors.push(o);
+            }
+            "g" => {
+                let mut o = norad::Guideline::new(norad::Line::Horizontal(3.0), None, None, id);
+                drive!(o);
+                g.guidelines.push(o);
+            }
+            "c" => {
+                let p = norad::ContourPoint::new(0.0, 0.0, norad::PointType::Line, false, None, None);
+                let mut o = norad::Contour::new(vec![p], id);
+                drive!(o);
+                g.contours.push(o);
+            }
+            "p" => {
+                let mut o = norad::ContourPoint::new(0.0, 0.0, norad::PointType::Line, false, None, id);
+                drive!(o);
+                g.contours.push(norad::Contour::new(vec![o], None));
+            }
+            _ => {
+                let mut o = norad::Component::new(norad::Name::new("b").unwrap(), Default::default(), id);
+                drive!(o);
+                g.components.push(o);
+            }
+        }
+        if to_font {
+            let mut f = Font::new();
+            f.layers.default_layer_mut().insert_glyph(g);
+            f.save(&dir).map_err(|_| ())?;
+            Font::load(&dir).map(|_| ()).map_err(|_| ())
+        } else {
+            let bytes = g.encode_xml().map_err(|_| ())?;
+            let g2 = Glyph::parse_raw(&bytes).map_err(|_| ())?;
+            g2.encode_xml().map(|_| ()).map_err(|_| ())
+        }
+    });
+    rm_rf(&dir);
+    outcome(r)
+}
+
+fn olib_sequences(max_len: usize) -> Vec<String> {
+    let alpha = ['e', 'n', 'i', 'x', 't', 'r'];
+    let mut out = vec![String::new()];
+    let mut cur = vec![String::new()];
+    for _ in 0..max_len {
+        let mut next = Vec::new();
+        for s in &cur {
+            for a in alpha {
+                let mut t = s.clone();
+                t.push(a);
+                next.push(t);
+            }
+        }
+        out.extend(next.iter().cloned());
+        cur = next;
+    }
+    out
 }
 
 pub const API_CASES: &[&str] = &[
@@ -776,6 +960,33 @@ pub fn gen(tier: &str, seed: u64, out: &mut dyn Write) {
     for c in API_CASES {
         let o = run_api(c, &scratch);
         writeln!(out, "C03 api {} => {}", c, o).unwrap();
+    }
+    // 4b. option structs at typical and untypical values: WriteOptions (indent character x width x quote style) against
+    //     every writer path that indents by hand
+    for ch in ["s", "t"] {
+        for n in WOPT_COUNTS {
+            for q in ["d", "s"] {
+                for target in ["glyph", "font"] {
+                    if target == "font" && (*n > 300 || (q == "s" && *n % 2 == 1)) {
+                        continue;
+                    }
+                    let c = format!("wopt-{}-{}-{}-{}", ch, n, q, target);
+                    let o = run_api(&c, &scratch);
+                    writeln!(out, "C03 api {} => {}", c, o).unwrap();
+                }
+            }
+        }
+    }
+    // 4c. histories of the object-lib API (lazily created identifiers, emptied libs, taken libs) on every kind of object:
+    //     all sequences up to length 3 (quick) / 4 (thorough) over six operations, with and without an initial identifier
+    for kind in ["a", "g", "c", "p", "m"] {
+        for with_id in ["0", "1"] {
+            for ops in olib_sequences(if thorough { 4 } else { 3 }) {
+                let c = format!("olib-{}-{}-{}", kind, with_id, if ops.is_empty() { "_".to_string() } else { ops });
+                let o = run_api(&c, &scratch);
+                writeln!(out, "C03 api {} => {}", c, o).unwrap();
+            }
+        }
     }
     // 5. deep nesting, each in a child process
     let depths: &[usize] = if thorough { &[100, 1000, 5000, 20000, 100000, 400000] } else { &[100, 2000, 20000, 100000] };
